@@ -71,8 +71,9 @@ func (l *leader) onChangeConfig(t changeConfig) {
 		return
 	}
 
+	index := l.configs.Latest.Index
 	l.checkConfigActions(t.task, t.newConf)
-	if l.configs.IsCommitted() {
+	if l.configs.Latest.Index == index {
 		if trace {
 			println(l, "no configActions changed")
 		}
